@@ -96,12 +96,12 @@ theorem metadataBody_ne_fault (b : JVal) (m : String) : metadataBody b ≠ .faul
 
 /-! ## cursors and query parameters -/
 
-theorem decodeCursor_ne_fault (f : Bool) (v : Option JVal) (hv : v ≠ some .null) (m : String) :
+theorem decodeCursor_ne_fault (f : Bool) (v : Option JVal) (m : String) :
     decodeCursor f v ≠ .fault m := by
   unfold decodeCursor
   split
   · simp
-  · exact absurd rfl hv
+  · simp [cursorNullOutcome]
   · exact Res.ofDec_ne_fault _ _
   · simp
 
